@@ -60,10 +60,11 @@ Definition p_feat_transformer (n_out shared dep : nat) (X : pmat) : pmat :=
   if dep =? 0 then x else glu_block PO (shared =? 0) (repeat (dense2 n_out) dep) x.
 
 (* TabNet: [input of self.bn ; first attention mask ; output] *)
-Definition p_tabnet (layers cols Ce split shared dep vbs out : nat) (X : list nat) : option (list pmat) :=
+(* split = split_feat_channels, nattn = split_attn_channels *)
+Definition p_tabnet (layers cols Ce split nattn shared dep vbs out : nat) (X : list nat) : option (list pmat) :=
   let width := cols * Ce in
   let enc := penc cols Ce (seq 0 cols) in
-  let ft := p_feat_transformer (2 * split) shared dep in
+  let ft := p_feat_transformer (split + nattn) shared dep in
   let steps := repeat (dense2 width, pbn width, ft) layers in
   let x := pbn width (flat3 (enc X)) in
   let mask0 := attentive PO (dense2 width) (pbn width) vbs (map (skipn split) (ft x)) (map (map (fun _ => o1 PO)) x) in
